@@ -78,7 +78,7 @@ ADD = {
  'C08': ' TLC-validated random histories; thorough: repository tests as traces and the ragged README inside user contexts (stale listing modelled, outside the property).',
  'C09': ' The raise fault rotates Exception / KeyboardInterrupt / BaseException classes; TLC-validated random histories with faults; ASCII-locale child replay.',
  'C10': ' The raise fault rotates Exception / KeyboardInterrupt / BaseException classes; ASCII-locale child replay (default text encoding); TLC-validated random histories.',
- 'C11': ' Also inside open_array() contexts, where the spec says what the open map allows (WriteThroughOpenMap is modelled; ReadOnlyAlways must be violated in the model).',
+ 'C11': ' Also inside open_array() contexts, where the spec says what the open map allows (WriteThroughOpenMap is modelled; ReadOnlyAlways must be violated in the model). RaggedArray: also the ctx family of spec/Ragged.tla (uctx): a handle switched to r while an r+ context or a suspended iter_arrays generator still holds writeable maps must refuse append / truncate.',
  'C12': ' Several live handles on one directory: every state of spec/Shared.tla (also inconsistent ones) is materialised and a stratified sample of its edges executed; TLC checks Safe/ViewIsPrefix/ReadsCurrent and that the named deviations are real.',
  'C13': ' Multi-key updates (updateall), rotating unserialisable kinds (incl. undecodable bytes), the same edges on RaggedArrays, creation-time table (spec/MetaCreate.tla), TLC-validated random histories and the repository metadata tests as traces. Value pairs that Python calls equal but JSON distinguishes (1/True, False/0, 2/2.0, 5/[5]) are among the rotating value sets: replacing one by the other is a change.',
  'C14': ' Chunk parameters also as NumPy integers of several widths (refusal or the int behaviour).',
